@@ -46,8 +46,10 @@ DEPENDS = [
     (("StructuredGrid.compatible_with", "StructuredGrid.__eq__", "grid_spec.NoGrid."), ("C07", "C15")),
     (("finam.data.tools.mask.masks_", "finam.data.tools.mask.mask_specified"), ("C07", "C18")),
     (("finam.data.tools.units.",), ("C07", "C08", "C17")),
-    (("finam.sdk.output.Output.", "finam.sdk.output.CallbackOutput."), ("C01", "C05", "C08", "C09", "C10", "C20")),
-    (("finam.adapters.time.TimeCachingAdapter", "finam.adapters.time_integration.", "finam.sdk.adapter.Adapter."), ("C09", "C10", "C11", "C12")),
+    (("finam.sdk.output.Output.", "finam.sdk.output.CallbackOutput."), ("C01", "C03", "C05", "C06", "C08", "C09", "C10", "C20")),
+    (("finam.adapters.time.", "finam.adapters.time_integration.", "finam.sdk.adapter.Adapter."), ("C01", "C06", "C09", "C10", "C11", "C12", "C13")),
+    # validation guards the premises of the data-flow properties (single consumer below a buffering adapter, connected inputs ...)
+    (("finam.schedule._check_", "Composition._validate_composition"), ("C01", "C03", "C05", "C06", "C09", "C10", "C11", "C12", "C13", "C19", "C20")),
     (("finam.tools.connect_helper.",), ("C04", "C05", "C06")),
     (("finam.adapters.base.",), ("C05", "C07", "C08", "C09")),
     (("Composition.connect", "Composition._connect_components", "Composition._validate_composition"), ("C03", "C04", "C05", "C06", "C10", "C19")),
